@@ -5,6 +5,7 @@ import (
 	"time"
 
 	"github.com/yandex/pandora/core"
+	"go.uber.org/atomic"
 )
 
 type CompositeConf struct {
@@ -53,14 +54,17 @@ type compositeSchedule struct {
 	rwMu      sync.RWMutex
 	scheds    []core.Schedule // At least once schedule. First schedule can be finished.
 	leftAfter []int           // Tokens leftBefore, if known exactly, or at least tokens leftBefore otherwise.
+	started   atomic.Bool     // Start or Next has been called.
 }
 
 func (s *compositeSchedule) Start(startAt time.Time) {
 	s.rwMu.Lock()
 	defer s.rwMu.Unlock()
+	s.started.Store(true)
 	s.scheds[0].Start(startAt)
 }
 func (s *compositeSchedule) Next() (tx time.Time, ok bool) {
+	s.started.Store(true)
 	verifYield(s, "rlock")
 	s.rwMu.RLock()
 	verifYield(s, "child")
@@ -121,6 +125,11 @@ func (s *compositeSchedule) Left() int {
 	if left == 0 {
 		if leftAfter >= 0 {
 			return leftAfter
+		}
+		if !s.started.Load() {
+			// Not started yet, so nothing can be finished: the total is still unknown.
+			// Shifting now would start the nested schedules at an arbitrary time, and a later Start would panic.
+			return -1
 		}
 		// leftAfter was unknown, at schedule create moment.
 		// But now, it can be finished. Let's shift, and try one more time.
